@@ -4,6 +4,8 @@ C05 — Read-only accessors on JSONB bytes agree with the document they encode.
 question on the decoded tree (Spec/Access.lean).
 -/
 import JsonbModel.Proofs.AccessRefine
+import JsonbModel.Proofs.AccessDocs
+import JsonbModel.Proofs.AccessRefine5
 
 namespace Jsonb.Props
 open Jsonb JV
@@ -29,6 +31,60 @@ theorem C05_get_by_index_canonical (vs : List JV) (hn : vs.length < 536870912) (
   | some w =>
     simp [hv] at hb
     exact ⟨w, goodL_get vs hg i w hv, hb.symm⟩
+
+/-- member by name: exact match first, otherwise (flag on) the first key in key order that
+matches ignoring ASCII case -/
+theorem C05_get_by_name (v : JV) (h : goodTop v = true) (name : Bytes) (ic : Bool) :
+    Fn.getByName (encodeSpec v) name ic = .ok ((Spec.getByName v name ic).map encodeSpec) :=
+  getByName_refines v h name ic
+
+/-- sub-value by key path: negative indices from the end, `i = len` and out-of-range absent,
+name steps on objects only, paths past scalars absent -/
+theorem C05_get_by_keypath (v : JV) (h : goodTop v = true) (path : List KeyPath) :
+    Fn.getByKeypath (encodeSpec v) path = .ok ((Spec.getByKeypath v path).map encodeSpec) :=
+  getByKeypath_refines v h path
+
+theorem C05_object_keys (v : JV) (h : goodTop v = true) :
+    Fn.objectKeys (encodeSpec v) = .ok ((Spec.objectKeys v).map encodeSpec) := objectKeys_refines v h
+theorem C05_object_each (v : JV) (h : goodTop v = true) :
+    Fn.objectEach (encodeSpec v)
+      = .ok ((Spec.objectEach v).map (fun kvs => kvs.map (fun kv => (kv.1, encodeSpec kv.2)))) :=
+  objectEach_refines v h
+theorem C05_array_values (v : JV) (h : goodTop v = true) :
+    Fn.arrayValues (encodeSpec v) = .ok ((Spec.arrayValues v).map (fun vs => vs.map encodeSpec)) :=
+  arrayValues_refines v h
+theorem C05_type_of (v : JV) (h : goodTop v = true) : Fn.typeOf (encodeSpec v) = .ok (Spec.typeOf v) :=
+  typeOf_refines v h
+theorem C05_as_null (v : JV) (h : goodTop v = true) : Fn.asNull (encodeSpec v) = .ok (Spec.asNull v) :=
+  asNull_refines v h
+theorem C05_as_bool (v : JV) (h : goodTop v = true) : Fn.asBool (encodeSpec v) = .ok (Spec.asBool v) :=
+  asBool_refines v h
+theorem C05_as_str (v : JV) (h : goodTop v = true) : Fn.asStr (encodeSpec v) = .ok (Spec.asStr v) :=
+  asStr_refines v h
+/-- numbers come back with the codec's normal form (Int64(0) as UInt64(0), any NaN canonical) -/
+theorem C05_as_number (v : JV) (h : goodTop v = true) :
+    Fn.asNumber (encodeSpec v) = .ok ((Spec.asNumber v).map Num.norm) := asNumber_refines v h
+theorem C05_is_array (v : JV) (h : goodTop v = true) : Fn.isArray (encodeSpec v) = Spec.isArray v :=
+  isArray_refines v h
+theorem C05_is_object (v : JV) (h : goodTop v = true) : Fn.isObject (encodeSpec v) = Spec.isObject v :=
+  isObject_refines v h
+theorem C05_exists_all_keys (v : JV) (h : goodTop v = true) (keys : List Bytes) :
+    Fn.existsAllKeys (encodeSpec v) keys = .ok (Spec.existsAllKeys v keys) := existsAllKeys_refines v h keys
+theorem C05_exists_any_keys (v : JV) (h : goodTop v = true) (keys : List Bytes) :
+    Fn.existsAnyKeys (encodeSpec v) keys = .ok (Spec.existsAnyKeys v keys) := existsAnyKeys_refines v h keys
+/-- the string traversal finds a hit iff some string value OR object key satisfies the test -/
+theorem C05_traverse_check_string (v : JV) (h : goodTop v = true) (p : Bytes → Bool) :
+    Fn.traverseCheckString (encodeSpec v) p = .ok (Spec.anyString p v) :=
+  traverseCheckString_refines v h p
+
+/-- every sub-value handed back is itself a complete canonical document -/
+theorem C05_subvalues_canonical_name (v : JV) (h : goodTop v = true) (name : Bytes) (ic : Bool) (bs : Bytes)
+    (hb : Fn.getByName (encodeSpec v) name ic = .ok (some bs)) : ∃ w, good w = true ∧ bs = encodeSpec w :=
+  getByName_doc v h name ic bs hb
+theorem C05_subvalues_canonical_keypath (v : JV) (h : goodTop v = true) (path : List KeyPath) (bs : Bytes)
+    (hb : Fn.getByKeypath (encodeSpec v) path = .ok (some bs)) :
+    ∃ w, goodTop w = true ∧ bs = encodeSpec w ∧ (path ≠ [] → good w = true) :=
+  getByKeypath_doc v h path bs hb
 
 example : Fn.getByIndex (encodeSpec (arr [arr [], str [0x61], num (.uint 300)])) 2
     = .ok (some (encodeSpec (num (.uint 300)))) := by decide
